@@ -1050,4 +1050,8 @@ def obligations(tier, seed):
     hist = [{"cap": 2, "ops": [["sub", 0], ["sub", 0], ["sub", 0], ["query", 0], ["unsub", 1, 0], ["unsub", 0, 0], ["unsub", 0, 0], ["query", 0], ["finish", 0], ["sub", 0], ["sub_reject", 0], ["unsub_unknown", 0]]},
             {"cap": 2, "ops": [["sub", 0], ["clone", 0], ["dropone", 0], ["query", 0], ["unsub", 0, 0], ["query", 0], ["dropone", 0], ["sub", 0], ["sub", 0]]},
             {"cap": 1, "entry": "low_level", "ops": [["sub", 0], ["sub", 1], ["sub", 0], ["finish", 0], ["sub", 0]]}]
+    # "however the server is assembled": the configured value survives every builder step
+    from .cfgframe import journey_obligations as _journey
+    _extra = _journey(R.bodies("server"), "max_subscriptions_per_connection", "max_subscriptions_per_connection", scenario="cfg_journey", fixed={"field": "max_subscriptions_per_connection"})
+    out += _extra
     return _native_battery(out, "c06_history", hist, "native-histories")
